@@ -255,7 +255,7 @@ fn make_abbreviated_namespace(namespace: &str, existing_namespaces: &[Rc<Namespa
         namespace.chars().filter(|c| c != &'.').take(3).collect()
     }
 
-    let mut append: Option<u8> = None;
+    let mut append: Option<usize> = None;
 
     let abbreviation = if let Some(last_segment) = namespace.split('/').next_back() {
         if let Some(slashed) = last_segment.split('-').next_back() {
@@ -280,12 +280,11 @@ fn make_abbreviated_namespace(namespace: &str, existing_namespaces: &[Rc<Namespa
             return use_abbreviation;
         }
 
+        // terminates: at most `existing_namespaces.len()` candidates can be taken
         append = match append {
             None => Some(1),
             Some(n) => Some(n + 1),
         };
-
-        assert_ne!(append, Some(255), "Too many namespaces with the same abbreviation");
     }
 }
 
